@@ -104,6 +104,7 @@ type JQState struct {
 	Jcapi   map[string]JCRec `json:"jcapi"`
 	Jccache map[string]JCRec `json:"jccache"`
 	MaxC    map[string]int   `json:"maxc"`
+	JCSync  bool             `json:"jcsync"`
 	Quiet   bool             `json:"quiet"`
 }
 
@@ -179,9 +180,13 @@ func NewJQ(o JQOpts, t *sw.Tracer, run int) *JQ {
 	if !o.JCLag {
 		for q.W.Inf.JobConfigs.Deliver() {
 		}
-		if q.jp != nil { // initial JobConfig adds are not part of the modelled behaviour
-			for _, k := range q.jp.Queues["jobconfig"].Ready() {
-				q.jp.Queues["jobconfig"].Drop(k)
+		// the initial JobConfig adds are synced to completion before the run starts (status.state = Ready)
+		for q.jp != nil && len(q.jp.Queues["jobconfig"].Pending()) > 0 {
+			q.jp.SyncBegin("jobconfig", q.jp.Queues["jobconfig"].Pending()[0])
+			for q.jp.Stp != nil {
+				q.jp.Step(nil)
+			}
+			for q.W.Inf.JobConfigs.Deliver() {
 			}
 		}
 	}
@@ -394,6 +399,7 @@ func (q *JQ) State() JQState {
 		}
 		s.Api[id], s.Cache[id] = a, c
 	}
+	s.JCSync = q.jp != nil
 	s.Evq = w.Inf.Jobs.Pending()
 	s.Jcevq = w.Inf.JobConfigs.Pending()
 	s.Storeq = w.Inf.Jobs.Backlog(q.storeH)
@@ -534,6 +540,21 @@ func (q *JQ) Apply(l Label) bool {
 			x.Annotations["verif/touch"] = fmt.Sprint(q.touch)
 			return x
 		})
+	case "Postpone":
+		j := q.jobObj(l.J)
+		if j == nil || jobutil.IsStarted(j) || j.Spec.StartPolicy == nil {
+			return false
+		}
+		if l.Sa > 0 {
+			t := metav1.NewTime(time.Unix(sw.Base+int64(l.Sa), 0))
+			j.Spec.StartPolicy.StartAfter = &t
+		} else {
+			j.Spec.StartPolicy.StartAfter = nil
+		}
+		j.ResourceVersion = ""
+		if _, err := w.API.Direct("user", ktesting.NewUpdateAction(sw.JobsGVR, ns, j)); err != nil {
+			panic(err)
+		}
 	case "UserDelete":
 		j := q.jobObj(l.J)
 		if j == nil || j.DeletionTimestamp != nil {
@@ -705,6 +726,16 @@ func (q *JQ) Enabled(rng *rand.Rand, maxTime int, faultP float64, applied bool) 
 		}
 		if rng.Intn(8) == 0 {
 			add(Label{A: "Touch", J: i}, 1)
+		}
+		if !jobutil.IsStarted(j) && j.Spec.StartPolicy != nil && rng.Intn(6) == 0 {
+			sa := []int{0, w.Now(), w.Now() + 1, w.Now() + 3}[rng.Intn(4)]
+			cur := 0
+			if j.Spec.StartPolicy.StartAfter != nil {
+				cur = sw.Tk(j.Spec.StartPolicy.StartAfter.Time)
+			}
+			if sa != cur {
+				add(Label{A: "Postpone", J: i, Sa: sa}, 1)
+			}
 		}
 		if j.DeletionTimestamp == nil && rng.Intn(12) == 0 {
 			add(Label{A: "UserDelete", J: i}, 1)
